@@ -31,7 +31,7 @@ RULE = (
     "some request-metric stream has a normal count in {1,2,9,10,99,100,999,1000,9999,10000}. Distinct = distinct canonical JSON."
 )
 ASSUMPTIONS = [
-    "values are finite and within [0, 1e9] (latencies in ms, throughput in ops/s); NaN/inf/near-overflow magnitudes are not generated",
+    "values are finite, 0 or within [1e-9, 1e9] (latencies in ms, throughput in ops/s); NaN, inf, subnormal and near-overflow magnitudes are not generated",
     "all records of a task carry the task's operation type and service_time records carry a boolean meta 'success' (as SamplePostprocessor writes them)",
     "equality with the reference: absolute tolerance 1e-9 * max(1, largest magnitude in the stream); min, max, count, p100, bounds and monotonicity are exact",
     "percentile definition: linear interpolation at rank p/100*(n-1) (the variant for which p100 = max and p50 = median); a percentile p < 100 is "
@@ -39,8 +39,8 @@ ASSUMPTIONS = [
     "duration is only compared when the task has normal service_time records and warm-up precedes normal records in relative time",
     "in-memory metrics store and file race store only (the Elasticsearch-backed stores need a server)",
 ]
-BUDGET = {"quick": 1000, "thorough": 9000}
-WALL_BUDGET_S = {"quick": 85, "thorough": 1300}
+BUDGET = {"quick": 800, "thorough": 8000}
+WALL_BUDGET_S = {"quick": 70, "thorough": 1300}
 REQUIRED_CLASSES = {"tasks>=2": 200, "both-sample-types": 200, "threshold-count": 200, "count>=998": 40, "failures": 100, "globals": 100}
 
 TOL = Fraction(1, 10**9)
